@@ -53,6 +53,15 @@ for name, params, results, stmt, key, add, rem, zero, direct in M:
     out.append("//@   ensures local-a-failed-statement-fails-the-transaction: (execs == 1 && xerr != nil) ==> err == xerr")
     out.append("//@   ensures local-a-failed-tracker-update-fails-the-transaction: tracked == 1 ==> err == terr")
     if zero:
+        out.append("//@   ghost rowsRead bool = false")
+        out.append("//@   ghost rows int64 = 0")
+        out.append("//@   ghost rerr error = nil")
+        out.append("//@   at after call RowsAffected#*: ghost rows := callresult0")
+        out.append("//@   at after call RowsAffected#*: ghost rerr := callresult1")
+        out.append("//@   at after call RowsAffected#*: ghost rowsRead := true")
+        out.append("//@   at call updateKeyTracker#*: assert the-tracker-is-touched-only-after-the-statement-changed-a-row: rowsRead && rerr == nil && rows != 0")
+        out.append(f"//@   ensures local-a-statement-that-changed-no-row-is-the-documented-refusal: (rowsRead && rerr == nil && rows == 0) ==> err == {zero}")
+        out.append("//@   ensures local-an-unreadable-row-count-fails-the-transaction: (rowsRead && rerr != nil) ==> err == rerr")
         out.append(f"//@   ensures local-errors-come-from-the-statements-or-the-conflict-rule: err == nil || err == xerr || err == terr || err == {zero} || tracked == 0")
     out.append("")
 print("\n".join(out))
